@@ -97,7 +97,9 @@ def prepare_aux(aux_dir):
     aux = Path(aux_dir)
     aux.mkdir(parents=True, exist_ok=True)
     make(aux / "rnd", "rnd")
+    make(aux / "rnd2", "rnd")
     make(aux / "refaux", "old")
+    make(aux / "unkaux", "unk", redshifts=False)
 
 
 # ---------------------------------------------------------------------------
